@@ -4,7 +4,9 @@ import vlib
 
 LEVEL = "model_checking"
 RULE = ("M (definition level): the bit formula of sBox equals the Curl truth table on the 9 valid cell pairs and is total on all 16; the index walk is a "
-        "permutation; (program level, AsmMachine) see legs. T: transform/transformGeneric run on seeded bit-sliced states (arbitrary words incl. the "
+        "permutation. M (program level): the checked-in transform_amd64.s is translated into a TLA+ instruction list and executed by AsmMachine: address "
+        "run of the whole routine (650k instructions: every memory operand aligned and inside its buffer, no data in addresses/flags, pointer roles "
+        "per round, store counts at RET) and symbolic run of one round body (every store is the round function of its index by truth table). T: transform/transformGeneric run on seeded bit-sliced states (arbitrary words incl. the "
         "non-trit cell <<0,0>>, valid trits, the reset state, all-zero words, sparse, constant low plane) with all four buffers placed against "
         "PROT_NONE guard pages (start and end), under the default and the purego build; whole-state equality asm==portable; for audited lanes "
         "(lane 0, 63, random) TLC evaluates 81 rounds of the definition on the 729 cells. Distinct by (build, seed, pattern, guard).")
@@ -25,7 +27,7 @@ def run(ctx):
         from checks import asm_machine
         asm_machine.run(ctx)
     except ImportError:
-        ctx.skipped.append("AsmMachine (program-level model) not built yet")
+        ctx.skipped.append("AsmMachine module missing")
     ev = []
     bins = builds(ctx)
     for k, (name, binp) in enumerate(bins.items()):
